@@ -7,8 +7,9 @@
 (***************************************************************************)
 EXTENDS Account, Json, IOUtils
 Rec == ndJsonDeserialize(IOEnv.TRACE)
-VARIABLES l, persisted, loading, snapImg, snapCa, canConv, updC, updK, renewing
-tvars == <<vars, l, persisted, loading, snapImg, snapCa, canConv, updC, updK, renewing>>
+VARIABLES l, persisted, loading, snapImg, snapCa, canConv, updC, updK, renewing,
+          regd      \* endpoints on which this renewal has already sent an accepted newAccount (and the CA has not disowned it since)
+tvars == <<vars, l, persisted, loading, snapImg, snapCa, canConv, updC, updK, renewing, regd>>
 Ev == Rec[l]
 Is(e) == l <= Len(Rec) /\ Rec[l].e = e
 Adv == l' = l + 1 /\ UNCHANGED <<nextKey, hist>>
@@ -22,20 +23,21 @@ Same(a, b) == a.cur = b.cur /\ a.past = b.past /\ \A e \in Endpoints : a.ep[e].u
 TInit == /\ cfg = [c |-> NoVal, kt |-> NoVal, eab |-> NoVal] /\ img = NoImg /\ ca = [e \in Endpoints |-> NoCa]
          /\ nextKey = 0 /\ justified = [e \in Endpoints |-> FALSE] /\ hist = 0 /\ bad = {} /\ l = 1
          /\ persisted = NoImg /\ loading = FALSE /\ snapImg = NoImg /\ snapCa = [e \in Endpoints |-> NoCa]
-         /\ canConv = TRUE /\ updC = 0 /\ updK = 0 /\ renewing = NoVal
+         /\ canConv = TRUE /\ updC = 0 /\ updK = 0 /\ renewing = NoVal /\ regd = {}
 
 Frame == UNCHANGED <<persisted, loading, snapImg, snapCa, canConv, updC, updK, renewing>>
+FrameR == Frame /\ UNCHANGED regd
 
 TReset == /\ Is("Reset") /\ Adv
           /\ cfg' = [c |-> NoVal, kt |-> NoVal, eab |-> NoVal] /\ img' = NoImg /\ ca' = [e \in Endpoints |-> NoCa]
           /\ justified' = [e \in Endpoints |-> FALSE] /\ bad' = {}
           /\ persisted' = NoImg /\ loading' = FALSE /\ snapImg' = NoImg /\ snapCa' = [e \in Endpoints |-> NoCa]
-          /\ canConv' = TRUE /\ updC' = 0 /\ updK' = 0 /\ renewing' = NoVal
+          /\ canConv' = TRUE /\ updC' = 0 /\ updK' = 0 /\ renewing' = NoVal /\ regd' = {}
 
 (* the daemon starts with this configuration of the account *)
 TStart == /\ Is("Start") /\ Adv
           /\ cfg' = [c |-> Ev.c, kt |-> Ev.kt, eab |-> Ev.eab] /\ loading' = TRUE /\ bad' = {}
-          /\ UNCHANGED <<img, ca, justified, persisted, snapImg, snapCa, canConv, updC, updK, renewing>>
+          /\ UNCHANGED <<img, ca, justified, persisted, snapImg, snapCa, canConv, updC, updK, renewing, regd>>
 
 (* account file written.  While loading: update_keys made a new key: the old one must be kept as superseded key *)
 TSaved == /\ Is("Saved") /\ Adv
@@ -47,7 +49,7 @@ TSaved == /\ Is("Saved") /\ Adv
                                                                         /\ i.ep[e].cH = persisted.ep[e].cH)
                        ELSE {}
              /\ img' = i /\ persisted' = i
-          /\ UNCHANGED <<cfg, ca, justified, loading, snapImg, snapCa, canConv, updC, updK, renewing>>
+          /\ UNCHANGED <<cfg, ca, justified, loading, snapImg, snapCa, canConv, updC, updK, renewing, regd>>
 
 (* Account::load returned: what is in memory must be what was on disk (or what update_keys just saved) *)
 TLoaded == /\ Is("Loaded") /\ Adv
@@ -55,40 +57,41 @@ TLoaded == /\ Is("Loaded") /\ Adv
               /\ bad' = Chk("C11_Durable", persisted # NoImg => Same(i, persisted))
               /\ img' = i
            /\ loading' = FALSE
-           /\ UNCHANGED <<cfg, ca, justified, persisted, snapImg, snapCa, canConv, updC, updK, renewing>>
+           /\ UNCHANGED <<cfg, ca, justified, persisted, snapImg, snapCa, canConv, updC, updK, renewing, regd>>
 
 TRenewStart == /\ Is("RenewStart") /\ Adv
                /\ renewing' = Ev.ep /\ canConv' = CanConverge(Ev.ep) /\ snapImg' = img /\ snapCa' = ca
-               /\ updC' = 0 /\ updK' = 0 /\ justified' = [e \in Endpoints |-> FALSE] /\ bad' = {}
+               /\ updC' = 0 /\ updK' = 0 /\ justified' = [e \in Endpoints |-> FALSE] /\ bad' = {} /\ regd' = {}
                /\ UNCHANGED <<cfg, img, ca, persisted, loading>>
 
 TCaNew == /\ Is("CaNewAccount") /\ Adv
-          /\ bad' = Chk("C11_CreateOnlyWhen", MayCreate(Ev.ep))
+          /\ bad' = Chk("C11_CreateOnlyWhen", MayCreate(Ev.ep) /\ Ev.ep \notin regd)      \* ... and once: not again in the same renewal
           /\ ca' = IF Ev.accepted
                    THEN [ca EXCEPT ![Ev.ep] = [exists |-> TRUE, key |-> Ev.thumb, c |-> Ev.c_after, eab |-> Ev.eab]]
                    ELSE ca
           /\ img' = IF Ev.accepted /\ Ev.eab # NoVal THEN [img EXCEPT !.ep[Ev.ep].eH = Ev.eab] ELSE img
+          /\ regd' = IF Ev.accepted THEN regd \cup {Ev.ep} ELSE regd
           /\ UNCHANGED <<cfg, justified>> /\ Frame
 
 TCaUnknown == /\ Is("CaUnknown") /\ Adv
-              /\ justified' = [justified EXCEPT ![Ev.ep] = TRUE] /\ bad' = {}
+              /\ justified' = [justified EXCEPT ![Ev.ep] = TRUE] /\ bad' = {} /\ regd' = regd \ {Ev.ep}
               /\ UNCHANGED <<cfg, img, ca>> /\ Frame
 
 TCaUpdate == /\ Is("CaUpdate") /\ Adv
              /\ ca' = [ca EXCEPT ![Ev.ep].c = Ev.c]
              /\ updC' = updC + 1
              /\ bad' = Chk("C11_OneUpdatePerItem", updC = 0)
-             /\ UNCHANGED <<cfg, img, justified, persisted, loading, snapImg, snapCa, canConv, updK, renewing>>
+             /\ UNCHANGED <<cfg, img, justified, persisted, loading, snapImg, snapCa, canConv, updK, renewing, regd>>
 
 TCaRekey == /\ Is("CaRekey") /\ Adv
             /\ bad' = Chk("C11_RollOverByRecordedKey", Ev.signer = ca[Ev.ep].key /\ Ev.done)
                    \cup Chk("C11_OneUpdatePerItem", updK = 0)
             /\ ca' = IF Ev.done THEN [ca EXCEPT ![Ev.ep].key = Ev.new] ELSE ca
             /\ updK' = updK + 1
-            /\ UNCHANGED <<cfg, img, justified, persisted, loading, snapImg, snapCa, canConv, updC, renewing>>
+            /\ UNCHANGED <<cfg, img, justified, persisted, loading, snapImg, snapCa, canConv, updC, renewing, regd>>
 
 TCaForget == /\ Is("CaForget") /\ Adv
-             /\ ca' = [ca EXCEPT ![Ev.ep] = NoCa] /\ bad' = {}
+             /\ ca' = [ca EXCEPT ![Ev.ep] = NoCa] /\ bad' = {} /\ regd' = regd \ {Ev.ep}
              /\ UNCHANGED <<cfg, img, justified>> /\ Frame
 
 TRenewEnd == /\ Is("RenewEnd") /\ Adv
@@ -98,12 +101,12 @@ TRenewEnd == /\ Is("RenewEnd") /\ Adv
                              \A o \in Endpoints \ {e} : /\ img.ep[o].url = snapImg.ep[o].url /\ img.ep[o].kH = snapImg.ep[o].kH
                                                         /\ img.ep[o].cH = snapImg.ep[o].cH /\ ca[o] = snapCa[o])
              /\ renewing' = NoVal
-             /\ UNCHANGED <<cfg, img, ca, justified, persisted, loading, snapImg, snapCa, canConv, updC, updK>>
+             /\ UNCHANGED <<cfg, img, ca, justified, persisted, loading, snapImg, snapCa, canConv, updC, updK, regd>>
 
 (* the account file was damaged by the driver, then the daemon was started *)
 TCorrupt == /\ Is("CorruptExit") /\ Adv
             /\ bad' = Chk("C11_CorruptRefuses", Ev.rc # 0 /\ Ev.unchanged /\ Ev.requests = 0 /\ ~Ev.hung)
-            /\ UNCHANGED <<cfg, img, ca, justified>> /\ Frame
+            /\ UNCHANGED <<cfg, img, ca, justified>> /\ FrameR
 
 TNext == TReset \/ TStart \/ TSaved \/ TLoaded \/ TRenewStart \/ TCaNew \/ TCaUnknown \/ TCaUpdate \/ TCaRekey
          \/ TCaForget \/ TRenewEnd \/ TCorrupt
